@@ -27,6 +27,10 @@ def showInt (base : Nat) (showbase : Bool) (v : ZInt) : String :=
   let pfx := if showbase ∧ mag ≠ 0 then (if base = 16 then "0x" else if base = 8 then "0" else "") else ""
   (if d < 0 then "-" else "") ++ pfx ++ natToBase base mag
 
+/-- the literal-domain renderings (hex, oct): zero keeps its radix prefix in full form -/
+def showIntLit (base : Nat) (full : Bool) (v : ZInt) : String :=
+  if full ∧ v.den = 0 then (if base = 16 then "0x0" else "00") else showInt base full v
+
 /-- names of the value types (`T_*`), by tag -/
 def vtName : VT → String
   | .closure => "T_CLOSURE" | .const => "T_CONST" | .seq => "T_SEQ" | .str => "T_STR"
@@ -39,12 +43,12 @@ def showConst (typeName : Nat → Option String) (v : ZInt) (d : Dom) (brief : B
   match d with
   | .dec | .pos | .lineno | .colno => showInt 10 false v
   | .abbrevcode => showInt 10 true v
-  | .hex => showInt 16 (!brief) v
-  | .oct => showInt 8 (!brief) v
+  | .hex => showIntLit 16 (!brief) v
+  | .oct => showIntLit 8 (!brief) v
   | .addr | .off => showInt 16 true v
   | .bin =>
     let dd := v.den
-    if dd = 0 then "0"
+    if dd = 0 then (if brief then "0" else "0b0")
     else (if dd < 0 then "-" else "") ++ (if brief then "" else "0b") ++ natToBase 2 dd.natAbs
   | .bool => if v.den ≠ 0 then "true" else "false"
   | .slot =>
@@ -123,15 +127,37 @@ end
 
 /-! ### the CLI's brief string dumper (`dumper::dump_charp`, after the F5 repair) -/
 
-/-- one byte of a string in brief (quoted) form -/
-def dumpByte (c : UInt8) : Bytes :=
-  if c = 34 then s2b "\\\""          -- "
-  else if c = 92 then s2b "\\\\"     -- backslash
-  else if c = 10 then s2b "\\n"
-  else if c = 9 then s2b "\\t"
-  else if c ≥ 32 ∧ c < 127 then [c]
-  else s2b "\\x" ++ s2b (hexByte c)
+def hexDigit (n : Nat) : UInt8 := if n < 10 then (48 + n).toUInt8 else (87 + n).toUInt8
 
-def dumpCharp (s : Bytes) : Bytes := s2b "\"" ++ s.flatMap dumpByte ++ s2b "\""
+/-- one byte of a string in brief (quoted) form: the escape table of `dump_charp`
+    (92 = backslash, 34 = double quote, 37 = percent, 120 = 'x') -/
+def dumpByte (c : UInt8) : Bytes :=
+  if c = 0 then [92, 120, 48, 48]
+  else if c = 34 then [92, 34]
+  else if c = 37 then [37, 37]
+  else if c = 92 then [92, 92]
+  else if c = 7 then [92, 97]
+  else if c = 8 then [92, 98]
+  else if c = 9 then [92, 116]
+  else if c = 10 then [92, 110]
+  else if c = 11 then [92, 118]
+  else if c = 12 then [92, 102]
+  else if c = 13 then [92, 114]
+  else if c ≥ 32 ∧ c < 127 then [c]
+  else [92, 120, hexDigit (c.toNat / 16), hexDigit (c.toNat % 16)]
+
+def dumpCharp (s : Bytes) : Bytes := [34] ++ s.flatMap dumpByte ++ [34]
+
+def hexVal (c : UInt8) : Nat :=
+  if c ≥ 48 ∧ c ≤ 57 then c.toNat - 48 else if c ≥ 97 ∧ c ≤ 102 then c.toNat - 87 else c.toNat - 55
+
+/-- reading the body of a brief string back: the escapes of the STRING start condition that
+    `dump_charp` uses (`\\"`, `\\\\`, `\\a` … `\\r`, `\\xHH`, `%%`) -/
+def undump : Bytes → Bytes
+  | [] => []
+  | 92 :: 120 :: h1 :: h2 :: rest => (hexVal h1 * 16 + hexVal h2).toUInt8 :: undump rest
+  | 92 :: c :: rest => ((escChar c).getD c) :: undump rest
+  | 37 :: 37 :: rest => 37 :: undump rest
+  | c :: rest => c :: undump rest
 
 end ZwVerif
